@@ -65,6 +65,7 @@ type SearchResult struct {
 	PollsAfter   int      `json:"polls_after,omitempty"`  // polls executed from then until return
 	MaxNodesSeen int      `json:"max_nodes_seen"`         // largest Counters.Nodes observed at any poll
 	Overspend    string   `json:"overspend,omitempty"`    // first observation of Counters.Nodes > hard budget
+	LeftPonder   bool     `json:"left_ponder,omitempty"`  // a ponder search that took its ponderhit
 	Capped       bool     `json:"capped,omitempty"`       // harness safety cap closed the stop channel
 	SimElapsedUS int64    `json:"sim_elapsed_us"`         // fake time covered by this search
 	BoardDiff    string   `json:"board_diff,omitempty"`   // non-empty: board differs after Go
@@ -105,6 +106,7 @@ type agent struct {
 	board        *board.Board
 	interference string
 	lastNodes    int
+	leftPonder   bool
 
 	polls     int
 	abortPoll int
@@ -179,7 +181,10 @@ func (a *agent) poll(s *search.Search, o *search.Options) {
 	if n > a.maxNodes {
 		a.maxNodes = n
 	}
-	if a.req.Nodes >= 0 && !a.req.Ponder && n > a.req.Nodes && a.overspend == "" {
+	if a.req.Ponder && o.PonderHit == nil {
+		a.leftPonder = true // the ponderhit has been taken: from here on this is an ordinary search
+	}
+	if a.req.Nodes >= 0 && (!a.req.Ponder || a.leftPonder) && n > a.req.Nodes && a.overspend == "" {
 		a.overspend = fmt.Sprintf("Counters.Nodes=%d at poll %d exceeds the hard budget %d", n, a.polls, a.req.Nodes)
 	}
 	if a.req.StopAtPoll > 0 && a.polls == a.req.StopAtPoll {
@@ -355,6 +360,7 @@ func runGo(s *search.Search, b *board.Board, req Request, sched Sched, co *coop,
 	res.Overspend = a.overspend
 	res.Capped = a.capped
 	res.Interference = a.interference
+	res.LeftPonder = a.leftPonder
 	if a.lines.torn != "" && res.Panic == "" {
 		// a report that is not exactly one newline-terminated line; recorded for C07/C13 use
 		res.Lines = append(res.Lines, "")
